@@ -1,13 +1,13 @@
 import SaphyrVerif.Props.C18
 /-!
-# C18 — counter-example theorems (F)
+# C18 — counter-example theorem (F) and regression theorems of two repaired findings
 
-The model is faithful to the code on these inputs (the `pathmap` differential agrees, and the oracle
-stream reproduces each of them on the implementation, classes `C18-decoy-key-shadows-field`,
-`C18-decoy-key-ambiguous`, `C18-rename-unresolvable` of `known_findings.json`); the property
-("every reported field path is mapped to the position where that field's value is used") is false on
-them.  Validation crates report RUST field names; the recorder stores YAML key spellings, including the
-keys Serde ignores as unknown; `search` bridges the two by spelling only.
+* `C18-decoy-key-shadows-field`, `C18-decoy-key-ambiguous` (repaired in /repo: a value Serde asks for as
+  `IgnoredAny` no longer enters the path map): the former counter-example documents are now regression
+  theorems of the good behaviour — the reported path resolves to the field's own value. The general
+  statement is `search_answers_consumed_position` in `Props/C18.lean`.
+* `C18-rename-unresolvable` (still present): validation crates report RUST field names; the recorder
+  stores YAML key spellings; `search` bridges the two by spelling only.
 -/
 namespace SaphyrVerif.PathMap
 
@@ -16,32 +16,37 @@ private def K (s : String) : Seg := ⟨.key, s.toList⟩
 /-- traversal of
     ```yaml
     owner:              # struct Person, #[serde(rename_all = "camelCase")]
-      first_name: decoy # unknown key: ignored by Serde, still recorded      (location 40)
-      firstName: x      # the value of field `first_name`, violates length≥2 (location 50)
+      first_name: decoy # unknown key: Serde reads its value as IgnoredAny     (location 40)
+      firstName: x      # the value of field `first_name`, violates length≥2   (location 50)
     ```
 -/
 private def decoyDoc : Visit Nat :=
   .map 1 [(some "owner".toList, 2,
-    .map 2 [(some "first_name".toList, 40, .leaf true), (some "firstName".toList, 50, .leaf true)])]
+    .map 2 [(some "first_name".toList, 40, .ignored (.leaf true)), (some "firstName".toList, 50, .leaf true)])]
 
-/-- (F) **decoy key shadows the field**: the validator reports `owner.first_name` for the value at 50;
-    `search` takes the exact-match pass and answers with the location of the unknown key (40). -/
-theorem decoy_key_shadows_field_counterexample :
-    get (record decoyDoc { current := [], map := [] }).2.map [K "owner", K "firstName"] = some 50 ∧
+/-- regression of `C18-decoy-key-shadows-field`: the validator reports `owner.first_name`; the ignored
+    key is not in the map, so the token pass finds the field's own key and location (50). -/
+theorem decoy_key_does_not_shadow_field :
+    get (record decoyDoc { current := [], map := [] }).2.map [K "owner", K "first_name"] = none ∧
     search (record decoyDoc { current := [], map := [] }).2.map [K "owner", K "first_name"]
-      = some (40, "first_name".toList) := by decide
+      = some (50, "firstName".toList) := by decide
 
 /-- the same document with the unknown key spelt `FirstName` (differs from the YAML key by case only) -/
 private def decoyCaseDoc : Visit Nat :=
   .map 1 [(some "owner".toList, 2,
-    .map 2 [(some "FirstName".toList, 40, .leaf true), (some "firstName".toList, 50, .leaf true)])]
+    .map 2 [(some "FirstName".toList, 40, .ignored (.leaf true)), (some "firstName".toList, 50, .leaf true)])]
 
-/-- (F) **decoy key makes the field ambiguous**: every fuzzy pass sees two candidates, so the reported
-    path resolves to nothing although the field's value was recorded (at 50). -/
-theorem decoy_key_ambiguous_counterexample :
-    get (record decoyCaseDoc { current := [], map := [] }).2.map [K "owner", K "firstName"] = some 50 ∧
-    search (record decoyCaseDoc { current := [], map := [] }).2.map [K "owner", K "first_name"] = none := by
-  decide
+/-- regression of `C18-decoy-key-ambiguous`: the ignored look-alike is not a candidate of any pass. -/
+theorem decoy_key_does_not_make_field_ambiguous :
+    search (record decoyCaseDoc { current := [], map := [] }).2.map [K "owner", K "first_name"]
+      = some (50, "firstName".toList) := by decide
+
+/-- the ignored key first or last makes no difference (the removal concerns its own path only) -/
+theorem decoy_key_order_irrelevant :
+    search (record (.map 1 [(some "owner".toList, 2,
+        .map 2 [(some "firstName".toList, 50, .leaf true), (some "first_name".toList, 40, .ignored (.leaf true))])])
+      { current := [], map := ([] : Map Nat) }).2.map [K "owner", K "first_name"]
+      = some (50, "firstName".toList) := by decide
 
 /-- traversal of `label: x` for `struct S { #[serde(rename = "label")] name: String }` -/
 private def renamedDoc : Visit Nat := .map 1 [(some "label".toList, 7, .leaf true)]
@@ -54,10 +59,9 @@ theorem rename_unresolvable_counterexample :
     searchWithAncestorFallback (record renamedDoc { current := [], map := [] }).2.map [K "name"] = none := by
   decide
 
-/-- the positive half that remains true: if the reported path is spelt exactly like the recorded YAML
-    path of the field and no OTHER recorded key has that spelling (keys are distinct in a `HashMap`),
-    the field's own entry is returned.  This is `search_exact_first`; the two decoy findings are
-    exactly the cases where a different key owns the reported spelling or shares its fuzzy class. -/
+/-- the positive half that is true for every field: if the reported path is spelt exactly like the
+    recorded YAML path of the field, the field's own entry is returned (`search_exact_first`; keys are
+    distinct in a `HashMap`, and since the repair an ignored key cannot own that spelling). -/
 theorem located_when_spelt_as_recorded {α : Type} {m : Map α} (hm : KeysNodup m) {p : Path} {loc : α}
     (h : (p, loc) ∈ m) (hp : p ≠ []) : (search m p).map (·.1) = some loc := by
   rw [search_exact_first_nonempty hm h hp]; rfl
